@@ -168,6 +168,37 @@ def run(chk):
             for method in ('GET', 'HEAD'):
                 recs.append(record(hp, data, float(fixed), h, rng.choice(['absent', 'absent', 'older']), method, 2 ** 20))
                 chk.count(1, ('replaced', step, h, method))
+    # an atomic deploy (os.replace) or a clean-up (unlink) lands between the moment the answer is decided and the moment its
+    # body is sent: headers and bytes still describe one and the same file
+    dp = os.path.join(tmp, 'deployed.bin')
+    old_data = bytes(range(40))
+    for h in [None, 'bytes=0-15', 'bytes=-5', 'bytes=10-', 'bytes=3-3']:
+        for event in ('replace', 'unlink'):
+            with open(dp, 'wb') as fh:
+                fh.write(old_data)
+
+            def ev(event=event):
+                if event == 'replace':
+                    with open(dp + '.new', 'wb') as fh:
+                        fh.write(b'v2')
+                    os.replace(dp + '.new', dp)
+                else:
+                    os.unlink(dp)
+            try:
+                status, headers, chunks, errs = sl.serve(os.path.basename(dp), os.path.dirname(dp), rng=h, between=ev)
+                body = b''.join(chunks)
+            except Exception as e:   # noqa
+                status, headers, body = -1, [], repr(e).encode()
+            hd = dict(headers)
+            chk.count(1, ('deploy', h, event))
+            want = old_data
+            m_ = re.match(r'^bytes (\d+)-(\d+)/(\d+)$', hd.get('Content-Range', ''))
+            if m_:
+                want = old_data[int(m_.group(1)):int(m_.group(2)) + 1]
+            if status not in (200, 206) or str(len(body)) != hd.get('Content-Length') or body != want:
+                chk.violation("C17: ['SliceConsistent'] fails: Range %r, then the file is %sd before the body is sent -> status %s, Content-Length %s, Content-Range %r, %d bytes delivered%s"
+                              % (h, event, status, hd.get('Content-Length'), hd.get('Content-Range', ''), len(body), '' if body == want else ' (not the bytes the headers describe)'),
+                              {'header': h, 'event': event, 'status': status, 'clauses': ['SliceConsistent'], 'deploy': True})
     # the server's local time zone observes daylight saving: dates are HTTP dates (GMT) whatever the zone; files with a winter
     # and with a summer modification time, conditional requests at / around that time
     import time as _time
